@@ -1,28 +1,30 @@
 #!/bin/bash
 # usage: tools/try_mutant_iso.sh <ID> <patch.diff> [quick|thorough]
-# Like try_mutant.sh, but leaves /repo alone: the change is applied to a scratch worktree (/tmp/iso/repo) and a copy of the
-# harness whose path dependencies point there is built into /tmp/iso/target. For use while other checks are running
+# Like try_mutant.sh, but leaves /repo alone: the change is applied to a scratch worktree ($ISO/repo) and a copy of the
+# harness whose path dependencies point there is built into $ISO/target. For use while other checks are running
 # against /repo. Serialised by a lock; the worktree is removed afterwards, the target directory is kept for the next call
 # (remove /tmp/iso when done).
 set -u
 ID="$1"; PATCH="$(realpath "$2")"; TIER="${3:-quick}"
-mkdir -p /tmp/iso
-exec 9>/tmp/iso/lock; flock 9
+ISO="${ISO:-/tmp/iso}"   # several lanes may run side by side: ISO=/tmp/isoB tools/try_mutant_iso.sh ...
+mkdir -p $ISO
+exec 9>$ISO/lock; flock 9
 cd /repo || exit 2
-git worktree remove --force /tmp/iso/repo 2>/dev/null; git worktree prune
-git worktree add -q --detach /tmp/iso/repo HEAD || exit 2
-cp /repo/Cargo.lock /tmp/iso/repo/Cargo.lock
-cd /tmp/iso/repo
-if ! git apply --check "$PATCH" 2>/dev/null; then echo "patch does not apply: $PATCH"; cd /repo; git worktree remove --force /tmp/iso/repo; exit 2; fi
+G="flock /tmp/iso-git.lock git"   # lanes share /repo/.git
+$G worktree remove --force $ISO/repo 2>/dev/null; $G worktree prune
+$G worktree add -q --detach $ISO/repo HEAD || exit 2
+cp /repo/Cargo.lock $ISO/repo/Cargo.lock
+cd $ISO/repo
+if ! git apply --check "$PATCH" 2>/dev/null; then echo "patch does not apply: $PATCH"; cd /repo; $G worktree remove --force $ISO/repo; exit 2; fi
 git apply "$PATCH"
-rm -rf /tmp/iso/verif; mkdir -p /tmp/iso/verif
+rm -rf $ISO/verif; mkdir -p $ISO/verif
 EXC="--exclude target --exclude target-miri --exclude target-tsan"; [ "$TIER" = thorough ] || EXC="$EXC --exclude target-asan"
-rsync -a $EXC /verif/harness /tmp/iso/verif/
-cp /verif/check /verif/known_findings.json /tmp/iso/verif/
-sed -i 's#"/repo/#"/tmp/iso/repo/#g' /tmp/iso/verif/harness/Cargo.toml
-cd /tmp/iso/verif
-OUT="$(CARGO_TARGET_DIR=/tmp/iso/target VERIF_ROOT=/tmp/iso/verif ./check "$ID" "$TIER" 2>&1)"; RC=$?
+rsync -a $EXC /verif/harness $ISO/verif/
+cp /verif/check /verif/known_findings.json $ISO/verif/
+sed -i "s#\"/repo/#\"$ISO/repo/#g" $ISO/verif/harness/Cargo.toml
+cd $ISO/verif
+OUT="$(CARGO_TARGET_DIR=$ISO/target VERIF_ROOT=$ISO/verif ./check "$ID" "$TIER" 2>&1)"; RC=$?
 echo "$OUT" | grep -E "^(violation|VIOLATION|KNOWN-FINDING|INCONCLUSIVE|HELD|harness error|C[0-9]+ )" | cut -c1-300 | head -20
 echo "exit=$RC"
-if [ $RC -eq 2 ]; then tail -20 /tmp/iso/target/build-*.log 2>/dev/null | tail -20; fi
-cd /repo; git worktree remove --force /tmp/iso/repo; rm -rf /tmp/iso/verif
+if [ $RC -eq 2 ]; then tail -20 $ISO/target/build-*.log 2>/dev/null | tail -20; fi
+cd /repo; $G worktree remove --force $ISO/repo; rm -rf $ISO/verif
